@@ -19,14 +19,34 @@ PROPS["C03"] = dict(
                "revm_interpreter::instructions::i256::i256_cmp", "macros gas!/pop_top!/check! as expanded in those functions"],
     bounds="Group A: all 2^256 values of every operand and of the word below them, all u64 gas values; stack depth arity+1 (functional harness) "
            "and arity-1 (underflow harness); SPEC = LatestSpec, PetersburgSpec, ByzantiumSpec for the shift gate; unwind 6",
-    outside="MUL DIV SDIV MOD SMOD ADDMOD MULMOD EXP (group B) are not yet decided here; stack depths other than arity-1/arity+1; "
+    outside="group B (MUL DIV SDIV MOD SMOD ADDMOD MULMOD EXP) beyond three slices: ADDMOD with operands below the modulus, zero modulus, zero divisor "
+            "(ruint's multiply/divide kernels do not unwind in CBMC); stack depths other than arity-1/arity+1; "
             "the Interpreter is assembled field by field with empty code and an 8-word stack buffer (these opcodes never push or read code)",
     assumptions=["reference models are limb-wise (carry chains, funnel shifts, explicit sign tests) and do not use ruint",
                  "NoHost: any host call is a failure", "Kani/CBMC/CaDiCaL trusted"],
     harnesses=[H("c03::c03_" + n, bounds="all operands x all gas", timeout=900, mem_gb=6) for n in _C03_A]
     + [H("c03::c03_" + n + "::underflow", bounds="one operand short", timeout=600, mem_gb=4) for n in _C03_A]
-    + [H("c03::c03_shifts_not_activated_before_constantinople", bounds="SHL/SHR/SAR under ByzantiumSpec", mem_gb=4),
+    + [H("c03::c03_addmod_reduced_operands", bounds="ADDMOD for all a, b < N (all N): 257-bit sum with one conditional subtraction; ruint div_rem stubbed to fail if reached",
+         timeout=900, mem_gb=6, stubs_expected=["div_rem"]),
+       H("c03::c03_addmod_mulmod_zero_modulus", bounds="ADDMOD/MULMOD with N = 0, all a, b", timeout=900, mem_gb=6, stubs_expected=["div_rem"]),
+       H("c03::c03_division_by_zero", bounds="DIV/MOD/SDIV/SMOD with divisor 0, all dividends", timeout=900, mem_gb=6, stubs_expected=["div_rem"]),
+       H("c03::c03_shifts_not_activated_before_constantinople", bounds="SHL/SHR/SAR under ByzantiumSpec", mem_gb=4),
        H("c03::c03_twin_must_fail", expect_fail=True, bounds="vacuity twin", mem_gb=6)],
+)
+
+# --------------------------------------------------------------------------- C04
+_NOREACH = ["-Z", "unstable-options", "--no-assertion-reach-checks"]
+PROPS["C04"] = dict(
+    functions=["revm_interpreter::analysis::to_analysed / analyze (crates/interpreter/src/interpreter/analysis.rs) incl. the bitvec jump map it fills",
+               "revm_primitives::JumpTable::is_valid, revm_interpreter::Contract::is_valid_jump", "revm_interpreter::instructions::control::{jump, jumpi} (jump_inner)"],
+    bounds="every legacy code of length 1..=6 (jump table) / 1..=4 (JUMP, JUMPI on a real Interpreter over the analysed contract), all bytes symbolic - so every "
+           "PUSH1..PUSH32 with truncated immediates is included; every usize position / every 256-bit jump target; every JUMPI condition; all gas >= 10",
+    outside="codes longer than 6 (4) bytes: the scan is uniform in position but no induction is claimed; lazily analysed LegacyRaw code never reaches the interpreter",
+    assumptions=["reference: forward scan from position 0 written in the harness (0x5B, 0x60..=0x7F immediates)", "kissat back end, --no-assertion-reach-checks (performance only; "
+                 "vacuity is guarded by kani::cover!)", "Kani/CBMC trusted"],
+    harnesses=[H("c04::c04_table_%d" % n, tier=("quick" if n <= 4 else "thorough"), flags=_NOREACH, timeout=1500, mem_gb=8, bounds="all codes of %d bytes x all positions" % n) for n in range(1, 7)]
+    + [H("c04::c04_jump_%d" % n, tier=("quick" if n <= 2 else "thorough"), flags=_NOREACH, timeout=1500, mem_gb=8, bounds="all codes of %d bytes x all 256-bit targets x JUMP/JUMPI" % n) for n in range(1, 5)]
+    + [H("c04::c04_twin_must_fail", expect_fail=True, flags=_NOREACH, bounds="vacuity twin", mem_gb=8, timeout=900)],
 )
 
 # --------------------------------------------------------------------------- C05
@@ -145,7 +165,7 @@ PROPS["C10"] = dict(
     assumptions=["Interpreter assembled field by field with an 8-word stack buffer (c03::new_interp)", "Kani/CBMC/CaDiCaL; z3/cvc5 trusted",
                  "MIR aggregate `CallInputs { .. is_static: X .. }` is the only place the child's flag is set (one construction per opcode, checked)"],
     harnesses=[H("c10::c10_" + n, timeout=600, mem_gb=6, bounds="all operands x all gas, static frame") for n in _C10]
-    + [H("c10::c10_call_with_value", timeout=900, mem_gb=6, bounds="all non-zero values x target x gas"),
+    + [H("c10::c10_call_with_value", timeout=1200, mem_gb=14, bounds="all non-zero values x target x gas"),
        H("c10::c10_extcall_with_value", tier="thorough", timeout=1500, mem_gb=14, bounds="all non-zero values x target x gas (EOF frame)"),
        H("c10::c10_twin_must_fail", expect_fail=True, bounds="vacuity twin", mem_gb=6)],
     jobs=[dict(name="e3::static_flag_propagation", fn=jobs_e3.run_static_flag)],
@@ -301,6 +321,14 @@ PROPS["C14"] = dict(
 
 # --------------------------------------------------------------------------- manifest text per claimed property
 CLAIMS = {
+    "C04": dict(
+        text="For every legacy byte string up to the stated length the real jump analysis is run symbolically (CBMC, all bytes symbolic, so every PUSHn with truncated "
+             "immediates is covered) and the resulting table is compared at every position with `target < len, byte is JUMPDEST, not inside push data`; the real JUMP and "
+             "JUMPI are then run on an interpreter over that contract for every 256-bit target and condition: they land on the target exactly when it is valid and halt "
+             "with InvalidJump otherwise.",
+        note="Bounded by code length (6 for the table, 4 for the instructions). CBMC's pointer checks stay on inside the raw-pointer walk of `analyze`.",
+        technique="Kani/CBMC (kissat) bounded model checking of to_analysed + jump/jumpi against a forward-scan reference, all code bytes and targets symbolic",
+        design_ref="DESIGN.md §5 C04"),
     "C05": dict(
         text="The opcode->function table and each function's hardfork gate are extracted from the MIR of the current tree, the SpecId->Spec-type mapping from spec_to_generic!, "
              "and z3/cvc5 are asked for any (opcode, SpecId) pair among all 256 x 21 on which `undefined in legacy code` differs from the EIP introduction table; "
@@ -346,7 +374,8 @@ CLAIMS = {
         text="Each of ADD SUB LT GT SLT SGT EQ ISZERO AND OR XOR NOT BYTE SHL SHR SAR SIGNEXTEND is run as the real instruction function on a real Interpreter "
              "with fully symbolic 256-bit operands and gas, and CBMC compares result, stack effect, gas charge and failure behaviour with limb-wise reference models "
              "that do not use ruint - the full 2^512 operand space per opcode, which no test vector set can enumerate (sign boundaries, shift 255/256, index 30/31).",
-        note="Group B (MUL DIV SDIV MOD SMOD ADDMOD MULMOD EXP) is NOT decided: ruint's 256-bit multiply/divide kernels do not unwind in CBMC. "
+        note="Group B (MUL DIV SDIV MOD SMOD ADDMOD MULMOD EXP) is decided only on three slices (ADDMOD with reduced operands incl. the 2^256 carry region, zero modulus, "
+             "zero divisor): ruint's 256-bit multiply/divide kernels do not unwind in CBMC. "
              "Stack depth is arity+1 / arity-1 per harness; the interpreter is assembled field by field with an 8-word stack buffer.",
         technique="Kani/CBMC bounded model checking of the real opcode functions against limb-wise 256-bit reference models (full operand space)",
         design_ref="DESIGN.md §5 C03"),
